@@ -143,6 +143,10 @@ type Case struct {
 	Racy       bool   `json:"racy"`
 	Ops        []Step `json:"ops"`
 	Stage      string `json:"stage,omitempty"` // bytes: pre | verify | ready
+	// select: states of the manager's nodes, round-robin offset, block (true) or headers request
+	Sel      []SelNode `json:"sel,omitempty"`
+	SelOff   int       `json:"sel_off,omitempty"`
+	SelBlock bool      `json:"sel_block,omitempty"`
 	Trigger    string `json:"trigger,omitempty"` // set by the run: which known failure signature was seen
 	Output     string `json:"output,omitempty"`  // tail of the worker's output when it died
 	coq        string
@@ -276,6 +280,8 @@ func newSession(c *Case) *session {
 	go s.readLoop()
 	return s
 }
+
+func newCond(s *session) *sync.Cond { return sync.NewCond(&s.mu) }
 
 // readLoop collects the frames the node sends (the pipe is synchronous: somebody must read).
 func (s *session) readLoop() {
@@ -973,6 +979,11 @@ func main() {
 				cases = append(cases, genSession(r.Fork(uint64(i)), i, *profile))
 			}
 		}
+		if *profile == "C13" { // which node the manager selects
+			for i := 0; i < *n/6+10; i++ {
+				cases = append(cases, genSelect(r.Fork(uint64(1000000+i)), len(cases)))
+			}
+		}
 	}
 	self, _ := os.Executable()
 	var wg sync.WaitGroup
@@ -983,9 +994,12 @@ func main() {
 		go func(i int) {
 			defer wg.Done()
 			defer func() { <-sem }()
-			if cases[i].Kind == "bytes" {
+			switch cases[i].Kind {
+			case "bytes":
 				runBytes(&cases[i], self, *out)
-			} else {
+			case "select":
+				runSelect(&cases[i])
+			default:
 				runSession(&cases[i])
 			}
 		}(i)
@@ -995,8 +1009,22 @@ func main() {
 	distinct := map[string]bool{}
 	var coq []string
 	var ids []int
+	var selCoq []string
+	var selIDs []int
 	for _, c := range cases {
 		stats["kind_"+c.Kind]++
+		if c.Kind == "select" {
+			for _, sn := range c.Sel {
+				stats["select_node_"+sn.State]++
+			}
+			if strings.HasSuffix(c.coq, "None)") {
+				stats["select_none_chosen"]++
+			}
+			distinct[c.coq] = true
+			selCoq = append(selCoq, c.coq)
+			selIDs = append(selIDs, c.ID)
+			continue
+		}
 		if c.Kind == "bytes" {
 			stats["stage_"+c.Stage]++
 			if c.note != "" {
@@ -1044,6 +1072,10 @@ func main() {
 			index[s] = append(index[s], ids[i])
 		}
 		coqfmt.WriteCases(filepath.Join(*out, fmt.Sprintf("cases_%d.v", s)), "From BR Require Import Base.Prelude Net.NodeFSM.", "ncase", "nmismatches", part)
+	}
+	if len(selCoq) > 0 {
+		index = append(index, selIDs)
+		coqfmt.WriteCases(filepath.Join(*out, fmt.Sprintf("cases_%d.v", k)), "From BR Require Import Base.Prelude Net.Select.", "selcase", "selmismatches", selCoq)
 	}
 	coqfmt.WriteJSON(filepath.Join(*out, "cases.json"), cases)
 	samples := []interface{}{}
